@@ -18,6 +18,7 @@ import (
 	"go/types"
 	"os"
 	"path/filepath"
+	"regexp"
 	"sort"
 	"strconv"
 	"strings"
@@ -39,12 +40,15 @@ const c02Prelude = `package p
 
 import (
 	"fmt"
+	"hash"
 	"io"
+	"testing"
 	"unsafe"
 )
 
 func probe(a interface{}) int      { return 0 }
 func probeN(a ...interface{}) int  { return 0 }
+func probe2(a, b interface{}) int  { return 0 }
 func fn(x int) int                 { return x }
 func fv(xs ...int) int             { return len(xs) }
 func gen[T any](x T) T             { return x }
@@ -77,6 +81,65 @@ type W struct{}
 func (W) Write(p []byte) (int, error) { return 0, nil }
 func (W) String() string              { return "" }
 func (W) Error() string               { return "" }
+
+// method sets that miss an interface of the standard library by one aspect of one signature
+type WV struct{} // Write takes ...byte where io.Writer's takes []byte
+
+func (WV) Write(p ...byte) (int, error) { return 0, nil }
+
+type WP struct{} // io.Writer through the pointer receiver only
+
+func (*WP) Write(p []byte) (int, error) { return 0, nil }
+
+type WR struct{} // one result short
+
+func (WR) Write(p []byte) int { return 0 }
+
+type WE struct{ W } // promoted through embedding
+
+type HH struct{} // a hash.Hash
+
+func (HH) Write(p []byte) (int, error) { return 0, nil }
+func (HH) Sum(b []byte) []byte         { return b }
+func (HH) Reset()                      {}
+func (HH) Size() int                   { return 0 }
+func (HH) BlockSize() int              { return 0 }
+
+type HV struct{} // Sum takes ...byte
+
+func (HV) Write(p []byte) (int, error) { return 0, nil }
+func (HV) Sum(b ...byte) []byte        { return b }
+func (HV) Reset()                      {}
+func (HV) Size() int                   { return 0 }
+func (HV) BlockSize() int              { return 0 }
+
+type LV struct{} // Errorf / Log as testing.TB declares them
+
+func (LV) Errorf(format string, args ...interface{}) {}
+func (LV) Log(args ...interface{})                   {}
+func (LV) Name() string                              { return "" }
+
+type LS struct{} // the same with slices
+
+func (LS) Errorf(format string, args []interface{}) {}
+func (LS) Log(args []interface{})                   {}
+func (LS) Name() string                             { return "" }
+
+type LP struct{} // pointer receivers
+
+func (*LP) Errorf(format string, args ...interface{}) {}
+
+type LT struct{} // another element type
+
+func (LT) Errorf(format string, args ...string) {}
+func (LT) Log(args ...interface{}) int          { return 0 }
+
+type IV interface {
+	Errorf(format string, args ...interface{})
+}
+type IS interface {
+	Errorf(format string, args []interface{})
+}
 
 const c5 = 5
 const cs = "k"
@@ -122,9 +185,25 @@ var (
 	gap  AP
 	ganu ANU
 	gsa  SA
+	gwv  WV
+	gwp  WP
+	gwr  WR
+	gwe  WE
+	ghh  HH
+	ghv  HV
+	glv  LV
+	gls  LS
+	glp  LP
+	glt  LT
+	giv  IV
+	gis  IS
+	gtt  *testing.T
+	gfv  func(...int)
+	gfs  func([]int)
 )
 
 var _ = fmt.Sprint
+var _ hash.Hash
 
 `
 
@@ -141,22 +220,28 @@ var c02Exprs = []string{
 	"gsl[1:2]", "gs[:1]", "garr[:]", "gif.(int)", "gif.(io.Reader)", "func() {}", "func(x int) int { return x }",
 	"struct{}{}", "E{}", "new(int)", "make([]int, 1)", "append(gsl, 1)", "gi == 1", "gs + \"x\"", "gs + cs", "gerr == nil", "gfn(1)",
 	"gen[[]int]", "gen[int]", "gen[map[string]int](gm)", "gsl[gi:fn(1)]", "gsl[:gi:gi+1]", "gif.(fmt.Stringer).String", "S1{a: int8(fn(1))}", "map[string]int{gs: gi}", "[2]int{c5, 1}", "[...]string{cs}", "AS1{1, 2}",
+	"gwv", "gwp", "&gwp", "gwr", "gwe", "&gwe", "ghh", "ghv", "&ghv", "glv", "&glv", "gls", "glp", "&glp", "glt", "giv", "gis", "gtt", "gfv", "gfs", "struct{ LV }{}", "struct{ *LP }{}",
 	"%t", "%w", "%ws", "%w + 1", "%tp", "%xs", "%xs[0]",
 }
 
 type c02Site struct {
 	name    string
-	pat     int // 0 probe($x), 1 probeN($*xs), 2 if mark { $x }
+	pat     int        // 0 probe($x), 1 probeN($*xs), 2 if mark { $x }, 3 probe2($x, $y), 4 pv.($_)
+	class   string     // the input class the generator made the site for (pair and sink sites)
+	other   ast.Expr   // $y of probe2($x, $y)
+	path    []ast.Node // the ancestors of the match, outermost first (the declaration … the parent)
 	decl    *ast.FuncDecl
-	match   ast.Node   // the node the pattern matches ($$)
-	parent  ast.Node   // its parent
-	capture []ast.Node // the captured node (one), or the elements of $*xs
+	match   ast.Node       // the node the pattern matches ($$)
+	parent  ast.Node       // its parent
+	capture []ast.Node     // the captured node (one), or the elements of $*xs
 	lits    []*ast.FuncLit // the function literals on the node path of the match (the match itself, its ancestors)
 	tgt     *hx.Target
 }
 
-var c02Patterns = [3]string{"probe($x)", "probeN($*xs)", "if mark { $x }"}
-var c02Var = [3]string{"x", "xs", "x"}
+const c02NPat = 5
+
+var c02Patterns = [c02NPat]string{"probe($x)", "probeN($*xs)", "if mark { $x }", "probe2($x, $y)", "pv.($_)"}
+var c02Var = [c02NPat]string{"x", "xs", "x", "x", "$$"}
 
 func c02BuildTarget(seed int64, thorough bool) string {
 	rng := hx.Rng(seed, "c02-target")
@@ -249,11 +334,12 @@ func c02BuildTarget(seed int64, thorough bool) string {
 
 type c02World struct {
 	t     *hx.Target
-	sites [3][]*c02Site
+	sites [c02NPat][]*c02Site
 	alias bool
+	class map[string]string // site name -> input class (from the generator)
 }
 
-func c02Parse(path, src string, alias bool) (*c02World, error) {
+func c02Parse(path, src string, alias bool, classes map[string]string) (*c02World, error) {
 	if alias {
 		os.Setenv("GODEBUG", "gotypesalias=1")
 	} else {
@@ -263,7 +349,7 @@ func c02Parse(path, src string, alias bool) (*c02World, error) {
 	if err != nil {
 		return nil, fmt.Errorf("target: %v", err)
 	}
-	w := &c02World{t: t, alias: alias}
+	w := &c02World{t: t, alias: alias, class: classes}
 	for _, d := range t.File.Decls {
 		fd, ok := d.(*ast.FuncDecl)
 		if !ok || !strings.HasPrefix(fd.Name.Name, "s") || fd.Body == nil {
@@ -306,9 +392,15 @@ func c02Parse(path, src string, alias bool) (*c02World, error) {
 				if id, ok := n.Cond.(*ast.Ident); ok && id.Name == "mark" && len(n.Body.List) == 1 && n.Else == nil && n.Init == nil {
 					site = &c02Site{pat: 2, match: n, parent: parent, capture: []ast.Node{n.Body.List[0]}}
 				}
+			case *ast.TypeAssertExpr:
+				if id, ok := n.X.(*ast.Ident); ok && id.Name == "pv" && n.Type != nil {
+					site = &c02Site{pat: 4, match: n, parent: parent, capture: []ast.Node{n}}
+				}
 			case *ast.CallExpr:
 				if id, ok := n.Fun.(*ast.Ident); ok && id.Name == "probe" && len(n.Args) == 1 {
 					site = &c02Site{pat: 0, match: n, parent: parent, capture: []ast.Node{n.Args[0]}}
+				} else if ok && id.Name == "probe2" && len(n.Args) == 2 {
+					site = &c02Site{pat: 3, match: n, parent: parent, capture: []ast.Node{n.Args[0]}, other: n.Args[1]}
 				} else if ok && id.Name == "probeN" {
 					site = &c02Site{pat: 1, match: n, parent: parent}
 					for _, a := range n.Args {
@@ -316,12 +408,16 @@ func c02Parse(path, src string, alias bool) (*c02World, error) {
 					}
 				}
 			}
+			if site != nil {
+				site.path = append([]ast.Node(nil), stack[:len(stack)-1]...)
+			}
 			return true
 		})
 		if site == nil {
 			return nil, fmt.Errorf("no probe site in %s", fd.Name.Name)
 		}
 		site.name, site.decl, site.tgt = fd.Name.Name, fd, &t2
+		site.class = classes[fd.Name.Name]
 		w.sites[site.pat] = append(w.sites[site.pat], site)
 	}
 	return w, nil
@@ -635,6 +731,23 @@ type c02Op struct {
 	arg  string
 	dsl  string                                           // with %v for the variable name
 	rel  func(w *c02World, t types.Type, e ast.Expr) bool // oracle for delegated relations (nil otherwise)
+	// oracle of a relation that is about the site as a whole (two captures, the sink of the match, the
+	// source text of the capture); ok=false: the property does not constrain the site
+	site  func(w *c02World, s *c02Site) (holds, ok bool)
+	pats  []int // the patterns the predicate is probed on (nil: 0, 1, 2)
+	cache bool  // loading is slow (imports a large package): one engine per pattern for both alias modes
+}
+
+func (op c02Op) on(pat int) bool {
+	if op.pats == nil {
+		return pat <= 2
+	}
+	for _, p := range op.pats {
+		if p == pat {
+			return true
+		}
+	}
+	return false
 }
 
 func c02EvalType(w *c02World, s string) types.Type {
@@ -645,7 +758,7 @@ func c02EvalType(w *c02World, s string) types.Type {
 	return tv.Type
 }
 
-func c02Ops() []c02Op {
+func c02Ops(thorough bool) []c02Op {
 	var ops []c02Op
 	for _, k := range []string{"integer", "unsigned", "float", "complex", "untyped", "numeric", "signed", "int", "uint", "nonsense", "string", ""} {
 		ops = append(ops, c02Op{pred: "ofkind:0", arg: k, dsl: fmt.Sprintf(`m["%%v"].Type.OfKind(%q)`, k)})
@@ -674,8 +787,9 @@ func c02Ops() []c02Op {
 		"IncDecStmt", "ReturnStmt", "AssignStmt", "UnaryExpr", "StarExpr", "IndexExpr", "FuncLit", "SliceExpr", "TypeAssertExpr", "GoStmt", "BlockStmt", "DeclStmt", "Bogus"} {
 		ops = append(ops, c02Op{pred: "nodeis:v" + b01(nodetag.FromString(k) != nodetag.Unknown), arg: k, dsl: fmt.Sprintf(`m["%%v"].Node.Is(%q)`, k)})
 	}
-	for _, k := range []string{"ExprStmt", "AssignStmt", "BinaryExpr", "ParenExpr", "CallExpr", "BlockStmt", "Expr", "Stmt", "Node", "IfStmt", "GoStmt", "Bogus"} {
-		ops = append(ops, c02Op{pred: "parentis:v" + b01(nodetag.FromString(k) != nodetag.Unknown), arg: k, dsl: fmt.Sprintf(`m["$$"].Node.Parent().Is(%q)`, k)})
+	for _, k := range []string{"ExprStmt", "AssignStmt", "BinaryExpr", "ParenExpr", "CallExpr", "BlockStmt", "Expr", "Stmt", "Node", "IfStmt", "GoStmt", "Bogus",
+		"IndexExpr", "KeyValueExpr", "CompositeLit", "ReturnStmt", "ValueSpec", "SelectorExpr", "SendStmt", "UnaryExpr", "SliceExpr"} {
+		ops = append(ops, c02Op{pred: "parentis:v" + b01(nodetag.FromString(k) != nodetag.Unknown), arg: k, dsl: fmt.Sprintf(`m["$$"].Node.Parent().Is(%q)`, k), pats: []int{0, 1, 2, 4}})
 	}
 	for _, ty := range []string{"int", "int8", "uint8", "string", "float64", "[]int", "[]byte", "*int", "map[string]int", "error", "io.Reader", "[3]int64", "interface{}", "func(int) int", "chan int", "struct{}", "bool", "uint16"} {
 		ty := ty
@@ -693,20 +807,109 @@ func c02Ops() []c02Op {
 		ops = append(ops, c02Op{pred: "assignableto", arg: ty, dsl: fmt.Sprintf(`m["%%v"].Type.AssignableTo(%q)`, ty),
 			rel: func(w *c02World, t types.Type, e ast.Expr) bool { return types.AssignableTo(t, c02EvalType(w, ty)) }})
 	}
-	for _, ty := range []string{"error", "io.Reader", "io.Writer", "fmt.Stringer"} {
+	for _, ty := range []string{"error", "io.Reader", "io.Writer", "fmt.Stringer", "hash.Hash"} {
 		ty := ty
 		ops = append(ops, c02Op{pred: "implements", arg: ty, dsl: fmt.Sprintf(`m["%%v"].Type.Implements(%q)`, ty),
 			rel: func(w *c02World, t types.Type, e ast.Expr) bool {
 				return types.Implements(t, c02EvalType(w, ty).Underlying().(*types.Interface))
 			}})
 	}
+	// Type.HasMethod(`pkg.Iface.Method`): "it's possible to call F on x" — the method set of an addressable value
+	// of the type has a method of that name whose signature is identical to the interface's
+	for _, ref := range []string{"io.Writer.Write", "io.Reader.Read", "fmt.Stringer.String", "hash.Hash.Sum", "hash.Hash.Reset", "testing.TB.Errorf", "testing.TB.Log", "testing.TB.Name"} {
+		i := strings.LastIndex(ref, ".")
+		ifaceName, method := ref[:i], ref[i+1:]
+		// (resolving testing.TB makes the loader type-check package testing from source, ~2 s per engine: in the quick
+		// tier these predicates are probed on fewer patterns, and one engine serves both alias modes)
+		heavy := strings.HasPrefix(ref, "testing.")
+		var pats []int
+		if heavy && !thorough {
+			switch method {
+			case "Errorf":
+				pats = []int{0, 1}
+			case "Log":
+				pats = []int{0}
+			default:
+				continue
+			}
+		}
+		ops = append(ops, c02Op{pred: "hasmethod", arg: ref, dsl: fmt.Sprintf(`m["%%v"].Type.HasMethod(%q)`, ref), cache: heavy && !thorough, pats: pats,
+			rel: func(w *c02World, t types.Type, e ast.Expr) bool {
+				iface := c02EvalType(w, ifaceName).Underlying().(*types.Interface)
+				var want *types.Func
+				for k := 0; k < iface.NumMethods(); k++ {
+					if iface.Method(k).Name() == method {
+						want = iface.Method(k)
+					}
+				}
+				if want == nil {
+					panic("oracle: no method " + ref)
+				}
+				obj, _, _ := types.LookupFieldOrMethod(t, true, want.Pkg(), method)
+				got, ok := obj.(*types.Func)
+				return ok && types.Identical(got.Type(), want.Type())
+			}})
+	}
+	// Type.IdenticalTo(m["y"]): types.Identical of the two captures' types
+	ops = append(ops, c02Op{pred: "identicalto", dsl: `m["%v"].Type.IdenticalTo(m["y"])`, pats: []int{3},
+		site: func(w *c02World, s *c02Site) (bool, bool) {
+			return types.Identical(w.typeOf(subExprOf(s.capture[0])), w.typeOf(s.other)), true
+		}})
+	// SinkType.Is(T): the type of the place the value of the match flows into is T
+	for _, ty := range []string{"int", "int8", "int64", "string", "float64", "interface{}", "io.Writer", "[]int", "[]byte", "map[string]int", "error", "bool", "func(int) int", "*int", "chan int", "uint8", "[]interface{}"} {
+		ty := ty
+		ops = append(ops, c02Op{pred: "sinktypeis", arg: ty, dsl: fmt.Sprintf(`m["$$"].SinkType.Is(%q)`, ty), pats: []int{4},
+			site: func(w *c02World, s *c02Site) (bool, bool) {
+				sink, state := w.sinkOf(s)
+				switch state {
+				case "free":
+					return false, false
+				case "none":
+					return false, true
+				}
+				if hasAlias(sink, 0) || mentionsTypeParam(sink, 0) {
+					return false, false // typematch territory (C10), as for Type.Is
+				}
+				return types.Identical(sink, c02EvalType(w, ty)), true
+			}})
+	}
+	// Text: the source text of the capture ("" for a `$*xs` that matched nothing)
+	for _, re := range []string{"^$", "x*", "^[0-9, ]*$", "(?s).*", `^\s*$`, "^g", ".", `\(`, "^[a-z0-9]+$", "1", `^\w+, `, "(?i)^GI$"} {
+		rx := regexp.MustCompile(re)
+		ops = append(ops, c02Op{pred: "textmatches", arg: re, dsl: fmt.Sprintf(`m["%%v"].Text.Matches(%q)`, re),
+			site: func(w *c02World, s *c02Site) (bool, bool) { return rx.MatchString(w.capText(s)), true }})
+	}
+	for _, lit := range []string{"", "1", "gi", "1, 2", "gi, gs", "fn(gi)", "return"} {
+		lit := lit
+		ops = append(ops, c02Op{pred: "texteq", arg: lit, dsl: fmt.Sprintf(`m["%%v"].Text == %q`, lit),
+			site: func(w *c02World, s *c02Site) (bool, bool) { return w.capText(s) == lit, true }})
+		ops = append(ops, c02Op{pred: "textneq", arg: lit, dsl: fmt.Sprintf(`m["%%v"].Text != %q`, lit),
+			site: func(w *c02World, s *c02Site) (bool, bool) { return w.capText(s) != lit, true }})
+	}
 	return ops
+}
+
+// the source text of the capture of the site's variable: the bytes its nodes span
+func (w *c02World) capText(s *c02Site) string {
+	if len(s.capture) == 0 {
+		return ""
+	}
+	from := w.t.Fset.Position(s.capture[0].Pos()).Offset
+	to := w.t.Fset.Position(s.capture[len(s.capture)-1].End()).Offset
+	return string(w.t.Src[from:to])
 }
 
 // typematch / xtypes are oracles of this property (C10, C14): where their answer is known to differ
 // from go/types' (type parameters and their constraint interfaces, alias types under gotypesalias=1)
 // the model is given no answer and the site is not compared; the statement is still evaluated there.
 func (w *c02World) masked(op c02Op, s *c02Site) bool {
+	if op.site != nil {
+		_, ok := op.site(w, s)
+		// SinkType.Is on a parenthesised right-hand side of an assignment is known to differ (findSinkType's
+		// AssignStmt case compares the operands without astutil.Unparen; finding SinkType.Is:assign:rhs:parenthesised):
+		// not compared with the model, still judged by the statement
+		return !ok || (op.pred == "sinktypeis" && c02SinkGroup(s.class) == "assign:rhs:parenthesised")
+	}
 	if op.pred != "typeis" && op.pred != "typeunderlyingis" {
 		return false
 	}
@@ -737,6 +940,13 @@ func mentionsTypeParam(t types.Type, depth int) bool {
 }
 
 func (w *c02World) oracleSexp(op c02Op, s *c02Site) string {
+	if op.site != nil {
+		holds, ok := op.site(w, s)
+		if !ok {
+			return "-"
+		}
+		return fmt.Sprintf("(%s %s -)", b01(holds), b01(holds))
+	}
 	if op.rel == nil {
 		return "-"
 	}
@@ -856,140 +1066,191 @@ func runC02(c *Ctx) error {
 	}
 	defer os.RemoveAll(dir)
 	defer os.Unsetenv("GODEBUG")
-	src := c02BuildTarget(c.Seed, c.Thorough)
-	path := filepath.Join(dir, "c02target.go")
-	if err := os.WriteFile(path, []byte(src), 0o644); err != nil {
-		return err
+	type suite struct {
+		name    string
+		src     string
+		classes map[string]string
+		pats    []int
 	}
-	ops := c02Ops()
-	res.Rule = fmt.Sprintf("%d predicate/argument pairs x 3 patterns (probe($x), probeN($*xs), if mark { $x }) x every probe site of a generated file "+
-		"(%d expressions of every type constructor and syntactic form, expression lists, statements), type-checked under gotypesalias=0 and 1; "+
+	suites := []suite{{name: "main", src: c02BuildTarget(c.Seed, c.Thorough), pats: []int{0, 1, 2}}}
+	psrc, pclasses := c02BuildPairs(c.Seed, c.Thorough)
+	suites = append(suites, suite{"pairs", psrc, pclasses, []int{3}})
+	ssrc, sclasses := c02BuildSink(c.Seed, c.Thorough)
+	suites = append(suites, suite{"sink", ssrc, sclasses, []int{4}})
+	ops := c02Ops(c.Thorough)
+	res.Rule = fmt.Sprintf("%d predicate/argument pairs x the patterns probe($x), probeN($*xs), if mark { $x } x every probe site of a generated file "+
+		"(%d expressions of every type constructor and syntactic form incl. method sets that miss a standard interface by one aspect of one signature, expression lists, statements); "+
+		"Type.IdenticalTo on probe2($x, $y) over pairs of variables whose types are signatures (differing in variadic-ness, parameter names, element types, arity, results) under %d type constructors; "+
+		"SinkType.Is on the match `pv.($_)` at %d syntactic positions (every child slot of index, call, assignment, composite-literal, return, var, send, selector, slice, unary/binary expressions and statements, plain and parenthesised); "+
+		"Text.Matches / Text == / != on every capture incl. the empty `$*xs`; all type-checked under gotypesalias=0 and 1; "+
 		"rules converted by irconv in one batch and loaded with LoadFromIR (every 7th through Engine.Load); model op `c02 %s`, statement `spec02`, "+
-		"GoVersion filters and ParseGoVersion separately; a case (predicate, argument, site) is non-trivial when the predicate's verdict varies over the sites", len(ops), len(c02Exprs), c02Variant)
+		"GoVersion filters and ParseGoVersion separately; a case (predicate, argument, site) is non-trivial when the predicate's verdict varies over the sites",
+		len(ops), len(c02Exprs), len(c02Wrappers), len(c02SinkTemplates), c02Variant)
 
 	// rules: one irconv batch per pattern
-	irs := [3][]ir.FilterExpr{}
-	irErr := [3][]string{}
-	for pat := 0; pat < 3; pat++ {
+	irs := [c02NPat][]ir.FilterExpr{}
+	opIdx := [c02NPat][]int{} // position of op k in the batch of the pattern (-1: not probed on it)
+	for pat := 0; pat < c02NPat; pat++ {
 		var sb strings.Builder
+		n := 0
 		for k, op := range ops {
+			if !op.on(pat) {
+				opIdx[pat] = append(opIdx[pat], -1)
+				continue
+			}
+			opIdx[pat] = append(opIdx[pat], n)
+			n++
 			fmt.Fprintf(&sb, "func r%d(m dsl.Matcher) {\n\tm.Match(`%s`).Where(%s).Report(\"hit\")\n}\n", k, c02Patterns[pat], strings.ReplaceAll(op.dsl, "%v", c02Var[pat]))
 		}
 		irf, err := c17ConvertIR(hx.RulesFile(sb.String()))
 		if err != nil {
 			return fmt.Errorf("irconv of the predicate rules: %v", err)
 		}
-		if len(irf.RuleGroups) != len(ops) {
-			return fmt.Errorf("irconv: %d groups for %d rules", len(irf.RuleGroups), len(ops))
+		if len(irf.RuleGroups) != n {
+			return fmt.Errorf("irconv: %d groups for %d rules", len(irf.RuleGroups), n)
 		}
 		for _, g := range irf.RuleGroups {
 			irs[pat] = append(irs[pat], g.Rules[0].WhereExpr)
-			irErr[pat] = append(irErr[pat], "")
 		}
 	}
+	type engKey struct{ k, pat int }
+	type engVal struct {
+		eng  *ruleguard.Engine
+		load string
+	}
+	engCache := map[engKey]engVal{}
 
-	for _, alias := range []bool{false, true} {
-		w, err := c02Parse(path, src, alias)
-		if err != nil {
+	for _, su := range suites {
+		path := filepath.Join(dir, "c02target_"+su.name+".go")
+		if err := os.WriteFile(path, []byte(su.src), 0o644); err != nil {
 			return err
 		}
-		mode := "alias=" + b01(alias)
-		c02CheckScope(c, w)
-		for pat := 0; pat < 3; pat++ {
-			var lines, impl, specOps []string
-			var inputs []interface{}
-			var cases []struct {
-				op       c02Op
-				verdicts string
-				sites    string
-			}
-			for k, op := range ops {
-				var eng *ruleguard.Engine
-				var load string
-				where := strings.ReplaceAll(op.dsl, "%v", c02Var[pat])
-				if (k+pat)%7 == 0 && !alias {
-					eng, load, _ = c17LoadDSL(hx.RulesFile(fmt.Sprintf("func r(m dsl.Matcher) {\n\tm.Match(`%s`).Where(%s).Report(\"hit\")\n}\n", c02Patterns[pat], where)))
-				} else {
-					f := &ir.File{PkgPath: "gorules", RuleGroups: []ir.RuleGroup{{Line: 1, Name: "r", MatcherName: "m",
-						Rules: []ir.Rule{{Line: 1, SyntaxPatterns: []ir.PatternString{{Line: 1, Value: c02Patterns[pat]}}, ReportTemplate: "hit", WhereExpr: irs[pat][k]}}}}}
-					eng, load, _ = c17LoadIR(f)
-				}
-				var parts, mparts []string
-				var mask []bool
-				for _, s := range w.sites[pat] {
-					parts = append(parts, w.siteSexp(s, w.oracleSexp(op, s)))
-					if w.masked(op, s) {
-						mparts = append(mparts, w.siteSexp(s, "-"))
-						mask = append(mask, true)
-					} else {
-						mparts = append(mparts, parts[len(parts)-1])
-						mask = append(mask, false)
-					}
-				}
-				sites := "(sites " + strings.Join(parts, " ") + ")"
-				line := fmt.Sprintf("c02 %s %s %s (sites %s)", c02Variant, op.pred, hx.HexS(op.arg), strings.Join(mparts, " "))
-				out := load
-				if load == "ok" {
-					v, err := c02Observe(eng, w, pat, k%9 == 0)
-					if err != nil {
-						return fmt.Errorf("%s on %s: %v", where, c02Patterns[pat], err)
-					}
-					out = v
-					if v == "" {
-						out = "-"
-					}
-					specOps = append(specOps, fmt.Sprintf("spec02 %s %s %s %s", op.pred, hx.HexS(op.arg), sites, out))
-					cases = append(cases, struct {
-						op       c02Op
-						verdicts string
-						sites    string
-					}{op, v, sites})
-				}
-				if load == "ok" && out != "-" {
-					b := []byte(out)
-					for i := range b {
-						if mask[i] {
-							b[i] = '?'
-							res.Dist("masked:" + op.pred)
-						}
-					}
-					out = string(b)
-				}
-				lines = append(lines, line)
-				impl = append(impl, out)
-				inputs = append(inputs, map[string]interface{}{"where": where, "pattern": c02Patterns[pat], "mode": mode})
-				nontrivial := load != "ok" || strings.Trim(out, out[:1]) != ""
-				for i := range w.sites[pat] {
-					res.Count("model:"+mode, fmt.Sprintf("%s/%s/%d/%d", op.pred, op.arg, pat, i), nontrivial)
-				}
-				res.Dist("pred:" + strings.SplitN(op.pred, ":", 2)[0])
-				res.Dist("load:" + load)
-				if load == "ok" {
-					for _, ch := range "tfn" {
-						if strings.ContainsRune(out, ch) {
-							res.Dist("verdict-seen:" + strings.SplitN(op.pred, ":", 2)[0] + ":" + string(ch))
-						}
-					}
-				}
-			}
-			if err := res.Compare(c.Drv, "model:"+mode, lines, impl, inputs); err != nil {
-				return err
-			}
-			ans, err := c.Drv.Ask(specOps)
+		for _, alias := range []bool{false, true} {
+			w, err := c02Parse(path, su.src, alias, su.classes)
 			if err != nil {
-				return err
+				return fmt.Errorf("%s: %v", su.name, err)
 			}
-			for i, a := range ans {
-				if strings.HasPrefix(a, "holds") || a == "na" {
-					continue
+			mode := "alias=" + b01(alias)
+			c02CheckScope(c, w)
+			for pat := 0; pat < c02NPat; pat++ {
+				if len(w.sites[pat]) > 0 {
+					res.Distribution["sites:"+su.name+":"+c02Patterns[pat]] = len(w.sites[pat])
 				}
-				if a == "bad-op" {
-					return fmt.Errorf("spec02: bad-op for %s", cases[i].op.dsl)
+				for _, s := range w.sites[pat] {
+					if s.class != "" && !alias {
+						res.Dist("site-class:" + su.name + ":" + s.class)
+					}
+					if pat == 4 && !alias {
+						_, state := w.sinkOf(s)
+						res.Dist("sink:" + state)
+					}
 				}
-				c02Violation(c, w, pat, cases[i].op, cases[i].verdicts, a, mode)
 			}
-			if pat == 0 && !alias && len(lines) > 0 {
-				res.Sample(map[string]interface{}{"where": inputs[0], "impl": impl[0]})
+			for _, pat := range su.pats {
+				var lines, impl, specOps []string
+				var inputs []interface{}
+				var cases []struct {
+					op       c02Op
+					verdicts string
+					sites    string
+				}
+				for k, op := range ops {
+					if !op.on(pat) {
+						continue
+					}
+					var eng *ruleguard.Engine
+					var load string
+					where := strings.ReplaceAll(op.dsl, "%v", c02Var[pat])
+					if ev, ok := engCache[engKey{k, pat}]; ok {
+						eng, load = ev.eng, ev.load
+					} else if (k+pat)%7 == 0 && !alias {
+						eng, load, _ = c17LoadDSL(hx.RulesFile(fmt.Sprintf("func r(m dsl.Matcher) {\n\tm.Match(`%s`).Where(%s).Report(\"hit\")\n}\n", c02Patterns[pat], where)))
+					} else {
+						f := &ir.File{PkgPath: "gorules", RuleGroups: []ir.RuleGroup{{Line: 1, Name: "r", MatcherName: "m",
+							Rules: []ir.Rule{{Line: 1, SyntaxPatterns: []ir.PatternString{{Line: 1, Value: c02Patterns[pat]}}, ReportTemplate: "hit", WhereExpr: irs[pat][opIdx[pat][k]]}}}}}
+						eng, load, _ = c17LoadIR(f)
+					}
+					if op.cache {
+						engCache[engKey{k, pat}] = engVal{eng, load}
+					}
+					var parts, mparts []string
+					var mask []bool
+					for _, s := range w.sites[pat] {
+						parts = append(parts, w.siteSexp(s, w.oracleSexp(op, s)))
+						if w.masked(op, s) {
+							mparts = append(mparts, w.siteSexp(s, "-"))
+							mask = append(mask, true)
+						} else {
+							mparts = append(mparts, parts[len(parts)-1])
+							mask = append(mask, false)
+						}
+					}
+					sites := "(sites " + strings.Join(parts, " ") + ")"
+					line := fmt.Sprintf("c02 %s %s %s (sites %s)", c02Variant, op.pred, hx.HexS(op.arg), strings.Join(mparts, " "))
+					out := load
+					if load == "ok" {
+						v, err := c02Observe(eng, w, pat, k%9 == 0)
+						if err != nil {
+							return fmt.Errorf("%s on %s: %v", where, c02Patterns[pat], err)
+						}
+						out = v
+						if v == "" {
+							out = "-"
+						}
+						specOps = append(specOps, fmt.Sprintf("spec02 %s %s %s %s", op.pred, hx.HexS(op.arg), sites, out))
+						cases = append(cases, struct {
+							op       c02Op
+							verdicts string
+							sites    string
+						}{op, v, sites})
+					}
+					if load == "ok" && out != "-" {
+						b := []byte(out)
+						for i := range b {
+							if mask[i] {
+								b[i] = '?'
+								res.Dist("masked:" + op.pred)
+							}
+						}
+						out = string(b)
+					}
+					lines = append(lines, line)
+					impl = append(impl, out)
+					inputs = append(inputs, map[string]interface{}{"where": where, "pattern": c02Patterns[pat], "mode": mode})
+					judged := strings.ReplaceAll(out, "?", "") // the verdict varies over the judged sites
+					nontrivial := load != "ok" || (judged != "" && strings.Trim(judged, judged[:1]) != "")
+					for i := range w.sites[pat] {
+						res.Count("model:"+mode, fmt.Sprintf("%s/%s/%d/%d", op.pred, op.arg, pat, i), nontrivial)
+					}
+					res.Dist("pred:" + strings.SplitN(op.pred, ":", 2)[0])
+					res.Dist("load:" + load)
+					if load == "ok" {
+						for _, ch := range "tfn" {
+							if strings.ContainsRune(out, ch) {
+								res.Dist("verdict-seen:" + strings.SplitN(op.pred, ":", 2)[0] + ":" + string(ch))
+							}
+						}
+					}
+				}
+				if err := res.Compare(c.Drv, "model:"+mode, lines, impl, inputs); err != nil {
+					return err
+				}
+				ans, err := c.Drv.Ask(specOps)
+				if err != nil {
+					return err
+				}
+				for i, a := range ans {
+					if strings.HasPrefix(a, "holds") || a == "na" {
+						continue
+					}
+					if a == "bad-op" {
+						return fmt.Errorf("spec02: bad-op for %s", cases[i].op.dsl)
+					}
+					c02Violation(c, w, pat, cases[i].op, cases[i].verdicts, a, mode)
+				}
+				if pat == 0 && !alias && len(lines) > 0 {
+					res.Sample(map[string]interface{}{"where": inputs[0], "impl": impl[0]})
+				}
 			}
 		}
 	}
@@ -1003,7 +1264,7 @@ func runC02(c *Ctx) error {
 // captured identifier of every site: it denotes a `...T` parameter iff it is the last parameter of the enclosing
 // variadic declaration or the `...T` parameter of a function literal on the node path of the match
 func c02CheckScope(c *Ctx, w *c02World) {
-	for pat := 0; pat < 3; pat++ {
+	for pat := 0; pat < c02NPat; pat++ {
 		for _, s := range w.sites[pat] {
 			declVariadic := false
 			var declLast types.Object
@@ -1067,7 +1328,8 @@ func c02Violation(c *Ctx, w *c02World, pat int, op c02Op, verdicts, first, mode 
 var c02PredName = map[string]string{"ofkind:0": "Type.OfKind", "ofkind:1": "Type.Underlying.OfKind", "haspointers": "Type.HasPointers", "pure": "Pure",
 	"constslice": "ConstSlice", "isglobal": "Object.IsGlobal", "isvariadic": "Object.IsVariadicParam", "const": "Const", "addressable": "Addressable",
 	"comparable": "Comparable", "objectis": "Object.Is", "nodeis:v1": "Node.Is", "parentis:v1": "Node.Parent.Is", "typeis": "Type.Is",
-	"typeunderlyingis": "Type.Underlying.Is", "convertibleto": "Type.ConvertibleTo", "assignableto": "Type.AssignableTo", "implements": "Type.Implements"}
+	"typeunderlyingis": "Type.Underlying.Is", "convertibleto": "Type.ConvertibleTo", "assignableto": "Type.AssignableTo", "implements": "Type.Implements",
+	"hasmethod": "Type.HasMethod", "identicalto": "Type.IdenticalTo", "sinktypeis": "SinkType.Is", "textmatches": "Text.Matches", "texteq": "Text.==", "textneq": "Text.!="}
 
 func c02Signature(w *c02World, s *c02Site, op c02Op, want, got string) string {
 	name := c02PredName[op.pred]
@@ -1077,6 +1339,18 @@ func c02Signature(w *c02World, s *c02Site, op c02Op, want, got string) string {
 			return name + ":no-object:" + cause
 		}
 		return name + ":" + cause
+	}
+	switch op.pred {
+	case "identicalto":
+		return fmt.Sprintf("%s:%s:want-%s", name, s.class, want)
+	case "sinktypeis":
+		return fmt.Sprintf("%s:%s:want-%s", name, c02SinkGroup(s.class), want)
+	case "textmatches", "texteq", "textneq":
+		kind := [c02NPat]string{"expression", "expression-list", "statement", "expression", "match"}[s.pat]
+		if w.capText(s) == "" {
+			return fmt.Sprintf("%s:%s:empty-text:want-%s", name, kind, want)
+		}
+		return fmt.Sprintf("%s:%s:want-%s", name, kind, want)
 	}
 	listAware := map[string]bool{"pure": true, "constslice": true, "const": true, "addressable": true, "comparable": true, "objectis": true,
 		"typeis": true, "typeunderlyingis": true, "convertibleto": true, "assignableto": true, "implements": true}
@@ -1257,4 +1531,515 @@ func c02GoVersion(c *Ctx) error {
 	_ = sort.Strings
 	_ = constant.Int
 	return nil
+}
+
+// ---------------------------------------------------------------------------------------------
+// the sink of a match: where its value flows to
+
+// sinkOf derives, from go/ast and go/types alone, the type of the place the value of the matched expression is
+// stored into or passed as: the declared type of `var x T = E`, the i-th result type for `return …, E, …`, the
+// left-hand side's type for `lhs = E`, the parameter type for a call argument (the element type for an argument
+// in the variadic part, the slice type for `E...`), the target type of a conversion `T(E)`, the key type for
+// `m[E]` on a map, the element / key / field type for an element of a composite literal.  Parentheses around
+// the expression do not matter.  Everywhere else — operand of an index, slice, selector, star, unary, binary
+// or type-assertion expression, the function of a call, a left-hand side, a condition, a range or switch
+// operand, a channel operand — the value flows into no typed place: "none".
+// "free": positions where no reading of "sink" is settled (`x := E`, `x += E`, `ch <- E`, an index or bound of
+// a slice / array / string, elements of a literal whose `&T` is elided); the verdict there is not judged.
+func (w *c02World) sinkOf(s *c02Site) (types.Type, string) {
+	var child ast.Node = s.match
+	i := len(s.path) - 1
+	for ; i >= 0; i-- {
+		p, ok := s.path[i].(*ast.ParenExpr)
+		if !ok {
+			break
+		}
+		child = p
+	}
+	if i < 0 {
+		return nil, "none"
+	}
+	tv := func(e ast.Expr) types.Type { return w.t.Info.TypeOf(e) }
+	role := "" // key / value, under a KeyValueExpr
+	var kv *ast.KeyValueExpr
+	if k, ok := s.path[i].(*ast.KeyValueExpr); ok && i > 0 {
+		kv = k
+		if k.Key == child {
+			role = "key"
+		} else {
+			role = "value"
+		}
+		child = k
+		i--
+	}
+	typed := func(t types.Type) (types.Type, string) {
+		if t == nil || t == types.Typ[types.Invalid] {
+			return nil, "none"
+		}
+		return t, "sink"
+	}
+	switch p := s.path[i].(type) {
+	case *ast.ValueSpec:
+		for _, v := range p.Values {
+			if v == child && p.Type != nil {
+				return typed(tv(p.Type))
+			}
+		}
+	case *ast.ReturnStmt:
+		var sig *types.Signature
+		for j := i - 1; j >= 0 && sig == nil; j-- {
+			switch f := s.path[j].(type) {
+			case *ast.FuncLit:
+				sig, _ = tv(f).(*types.Signature)
+			case *ast.FuncDecl:
+				sig, _ = w.t.Info.Defs[f.Name].Type().(*types.Signature)
+			}
+		}
+		for k, r := range p.Results {
+			if r == child && sig != nil && sig.Results().Len() == len(p.Results) {
+				return typed(sig.Results().At(k).Type())
+			}
+		}
+	case *ast.AssignStmt:
+		for k, r := range p.Rhs {
+			if r != child {
+				continue
+			}
+			if p.Tok != token.ASSIGN {
+				return nil, "free"
+			}
+			if len(p.Lhs) == len(p.Rhs) {
+				if id, ok := p.Lhs[k].(*ast.Ident); ok && id.Name == "_" {
+					return nil, "none"
+				}
+				return typed(tv(p.Lhs[k]))
+			}
+		}
+	case *ast.SendStmt:
+		if p.Value == child {
+			return nil, "free"
+		}
+	case *ast.IndexExpr:
+		if p.Index == child {
+			if m, ok := tv(p.X).Underlying().(*types.Map); ok {
+				return typed(m.Key())
+			}
+			return nil, "free"
+		}
+	case *ast.SliceExpr:
+		if p.X != child {
+			return nil, "free"
+		}
+	case *ast.CallExpr:
+		for k, a := range p.Args {
+			if a != child {
+				continue
+			}
+			sig, ok := tv(p.Fun).(*types.Signature)
+			if !ok {
+				if ftv, found := w.t.Info.Types[p.Fun]; found && ftv.IsType() {
+					return typed(ftv.Type) // a conversion
+				}
+				return nil, "none"
+			}
+			n := sig.Params().Len()
+			switch {
+			case sig.Variadic() && k >= n-1 && p.Ellipsis.IsValid():
+				return typed(sig.Params().At(n - 1).Type())
+			case sig.Variadic() && k >= n-1:
+				return typed(sig.Params().At(n - 1).Type().(*types.Slice).Elem())
+			case k < n:
+				return typed(sig.Params().At(k).Type())
+			}
+		}
+	case *ast.CompositeLit:
+		in := false
+		pos := 0
+		for k, e := range p.Elts {
+			if e == child {
+				in, pos = true, k
+			}
+		}
+		if !in {
+			break
+		}
+		lt := tv(p)
+		if lt == nil {
+			break
+		}
+		if _, ptr := lt.Underlying().(*types.Pointer); ptr && p.Type == nil {
+			return nil, "free" // `[]*T{{…}}`: the literal stands for &T{…}
+		}
+		switch u := lt.Underlying().(type) {
+		case *types.Slice:
+			if role != "key" {
+				return typed(u.Elem())
+			}
+		case *types.Array:
+			if role != "key" {
+				return typed(u.Elem())
+			}
+		case *types.Map:
+			if role == "key" {
+				return typed(u.Key())
+			}
+			if role == "value" {
+				return typed(u.Elem())
+			}
+		case *types.Struct:
+			if kv == nil {
+				if pos < u.NumFields() {
+					return typed(u.Field(pos).Type())
+				}
+			} else if role == "value" {
+				if id, ok := kv.Key.(*ast.Ident); ok {
+					for k := 0; k < u.NumFields(); k++ {
+						if u.Field(k).Name() == id.Name {
+							return typed(u.Field(k).Type())
+						}
+					}
+				}
+			}
+		}
+	}
+	return nil, "none"
+}
+
+// ---------------------------------------------------------------------------------------------
+// generated worlds for the two-capture and the sink predicates
+
+type c02Sig struct {
+	params   []string
+	variadic bool
+	named    bool
+	result   string
+}
+
+func (g c02Sig) render(fn string) string {
+	var ps []string
+	for i, p := range g.params {
+		if g.variadic && i == len(g.params)-1 {
+			p = "..." + p
+		}
+		if g.named {
+			p = fmt.Sprintf("a%d %s", i, p)
+		}
+		ps = append(ps, p)
+	}
+	s := fn + "(" + strings.Join(ps, ", ") + ")"
+	if g.result != "" {
+		s += " " + g.result
+	}
+	return s
+}
+
+// how two signatures relate, from their construction
+func c02SigRelation(a, b c02Sig) string {
+	flat := func(g c02Sig) string {
+		ps := append([]string(nil), g.params...)
+		if g.variadic {
+			ps[len(ps)-1] = "[]" + ps[len(ps)-1]
+		}
+		return strings.Join(ps, ",") + "->" + g.result
+	}
+	switch {
+	case flat(a) == flat(b) && a.variadic == b.variadic && a.named == b.named:
+		return "same-signature"
+	case flat(a) == flat(b) && a.variadic == b.variadic:
+		return "parameter-names-differ"
+	case flat(a) == flat(b):
+		return "variadic-vs-slice"
+	}
+	return "different-signatures"
+}
+
+var c02Sigs = []c02Sig{
+	{params: []string{"int"}, variadic: true},
+	{params: []string{"[]int"}},
+	{params: []string{"int"}, variadic: true, named: true},
+	{params: []string{"string"}, variadic: true},
+	{params: []string{"[]string"}},
+	{params: []string{"int", "int"}, variadic: true},
+	{params: []string{"int", "[]int"}},
+	{params: []string{"int"}, variadic: true, result: "int"},
+	{params: []string{"[]int"}, result: "int"},
+	{params: []string{"[]int"}, variadic: true},
+	{params: []string{"[][]int"}},
+	{params: []string{"interface{}"}, variadic: true},
+	{params: []string{"[]interface{}"}},
+	{params: []string{"[]int"}, named: true},
+	{},
+	{params: []string{"int"}},
+}
+
+var c02Wrappers = []struct{ name, format string }{
+	{"func", "%s"}, {"chan", "chan %s"}, {"slice", "[]%s"}, {"array", "[2]%s"}, {"pointer", "*%s"}, {"map-value", "map[string]%s"},
+	{"struct-field", "struct{ f %s }"}, {"parameter", "func(%s)"}, {"result", "func() %s"}, {"interface-method", ""}, {"map-of-slices", "map[int][]%s"},
+}
+
+// c02BuildPairs: probe2(x, y) over pairs of variables whose types are a signature under a type constructor;
+// within a constructor every ordered pair of a seed-chosen subset of the signatures (all of them in the thorough
+// tier), plus pairs across constructors and pairs of non-function types.
+func c02BuildPairs(seed int64, thorough bool) (string, map[string]string) {
+	rng := hx.Rng(seed, "c02-pairs")
+	var sb strings.Builder
+	sb.WriteString(c02Prelude)
+	typeOf := func(wi, si int) string {
+		if c02Wrappers[wi].name == "interface-method" {
+			return "interface{ " + c02Sigs[si].render("M") + " }"
+		}
+		return fmt.Sprintf(c02Wrappers[wi].format, c02Sigs[si].render("func"))
+	}
+	sb.WriteString("var (\n")
+	for wi := range c02Wrappers {
+		for si := range c02Sigs {
+			fmt.Fprintf(&sb, "\tq%d_%d %s\n", wi, si, typeOf(wi, si))
+		}
+	}
+	sb.WriteString(")\n\n")
+	classes := map[string]string{}
+	k := 0
+	site := func(x, y, class string) {
+		name := fmt.Sprintf("s%d", k)
+		k++
+		fmt.Fprintf(&sb, "func %s() {\n\tprobe2(%s, %s)\n}\n\n", name, x, y)
+		classes[name] = class
+	}
+	for wi, wr := range c02Wrappers {
+		pick := rng.Perm(len(c02Sigs))
+		// the first signatures (the variadic / slice family) are always in; the rest rotates with the seed
+		chosen := []int{0, 1, 2, 3, 4}
+		for _, si := range pick {
+			if si >= 5 && (thorough || len(chosen) < 9) {
+				chosen = append(chosen, si)
+			}
+		}
+		sort.Ints(chosen)
+		for _, a := range chosen {
+			for _, b := range chosen {
+				site(fmt.Sprintf("q%d_%d", wi, a), fmt.Sprintf("q%d_%d", wi, b), wr.name+":"+c02SigRelation(c02Sigs[a], c02Sigs[b]))
+			}
+		}
+	}
+	n := 60
+	if thorough {
+		n = 400
+	}
+	for i := 0; i < n; i++ { // across constructors: never identical unless it is the same variable
+		wa, wb := rng.Intn(len(c02Wrappers)), rng.Intn(len(c02Wrappers))
+		a, b := rng.Intn(len(c02Sigs)), rng.Intn(len(c02Sigs))
+		site(fmt.Sprintf("q%d_%d", wa, a), fmt.Sprintf("q%d_%d", wb, b), "across-constructors")
+	}
+	plain := []string{"gi", "g8", "ga8", "gn8", "gs", "gns", "gsl", "gbs", "garr", "gst", "gas1", "gif", "gerr", "gp", "gap", "gm", "gch", "gfn", "gfv", "gfs", "1", "c5", "nil", "gw", "gwe", "giv", "gis"}
+	for _, a := range plain {
+		site(a, a, "same-expression")
+		site(a, plain[rng.Intn(len(plain))], "non-function-types")
+	}
+	site("gfn", "fn", "func-value-vs-declared-function")
+	site("gfv", "fv", "func-value-vs-declared-variadic-function")
+	site("gfs", "fv", "func-value-vs-declared-variadic-function")
+	site("(gfv)", "gfv", "parenthesised")
+	sb.WriteString("\n// end\n")
+	return sb.String(), classes
+}
+
+const c02SinkDecls = `
+var pv interface{}
+
+type NM map[string]int
+type NSl []int
+type KI map[interface{}]int
+
+var (
+	gmi  map[interface{}]int
+	gmk  KI
+	gnm  NM
+	gf64 float64
+	gwr2 io.Writer
+)
+
+func sinkI(a interface{}) int         { return 0 }
+func sinkV(a int, bs ...string) int   { return 0 }
+func sinkW(w io.Writer, k int8) int   { return 0 }
+func sinkF(f func(int) int, m NM) int { return 0 }
+
+`
+
+// a sink site: class, asserted type, function declaration with # for the name and @ for the match
+var c02SinkTemplates = []struct{ class, typ, decl string }{
+	{"return:only-result", "int", "func #() int {\n\treturn @\n}"},
+	{"return:second-of-two", "string", "func #() (int, string) {\n\treturn 1, @\n}"},
+	{"return:first-of-two", "int8", "func #() (int8, error) {\n\treturn @, nil\n}"},
+	{"return:interface-result", "W", "func #() (io.Writer, error) {\n\treturn @, nil\n}"},
+	{"return:named-results", "float64", "func #() (r float64, e error) {\n\treturn @, nil\n}"},
+	{"return:method", "int8", "func (recv *S1) #() int8 {\n\treturn @\n}"},
+	{"return:generic-function", "int", "func #[T any](z T) (T, int) {\n\treturn z, @\n}"},
+	{"return:func-literal", "string", "func #() int {\n\t_ = func() string {\n\t\treturn @\n\t}\n\treturn 0\n}"},
+	{"return:func-literal-in-literal", "bool", "func #() int {\n\t_ = func() string {\n\t\t_ = func() (int, bool) { return 0, @ }\n\t\treturn \"\"\n\t}\n\treturn 0\n}"},
+	{"return:called-func-literal-as-argument", "int", "func #() {\n\tsinkI(func() int { return @ }())\n}"},
+	{"var:declared-type", "int", "func #() {\n\tvar x interface{} = @\n\t_ = x\n}"},
+	{"var:declared-interface", "W", "func #() {\n\tvar x io.Writer = @\n\t_ = x\n}"},
+	{"var:declared-type:second-value", "float64", "func #() {\n\tvar a, b float64 = 1, @\n\t_, _ = a, b\n}"},
+	{"var:declared-type:same", "int64", "func #() {\n\tvar x int64 = @\n\t_ = x\n}"},
+	{"var:no-declared-type", "int", "func #() {\n\tvar x = @\n\t_ = x\n}"},
+	{"assign:variable", "int", "func #() {\n\tgif = @\n}"},
+	{"assign:variable:same-type", "string", "func #() {\n\tgs = @\n}"},
+	{"assign:field", "int64", "func #() {\n\tgst.b = @\n}"},
+	{"assign:map-element", "int", "func #() {\n\tgm[\"k\"] = @\n}"},
+	{"assign:slice-element", "int", "func #() {\n\tgsl[0] = @\n}"},
+	{"assign:through-pointer", "int", "func #() {\n\t*gp = @\n}"},
+	{"assign:blank", "int", "func #() {\n\t_ = @\n}"},
+	{"assign:second-of-two", "string", "func #() {\n\tgi, gs = 1, @\n}"},
+	{"assign:first-of-two", "W", "func #() {\n\tgwr2, gi = @, 1\n}"},
+	{"assign:define", "int", "func #() {\n\tx := @\n\t_ = x\n}"},
+	{"assign:add-assign", "int", "func #() {\n\tgi += @\n}"},
+	{"assign:lhs:index-of-map", "map[string]int", "func #() {\n\t@[\"k\"] = 1\n}"},
+	{"assign:lhs:index-of-slice", "[]int", "func #() {\n\t@[0] = 1\n}"},
+	{"assign:lhs:star", "*int", "func #() {\n\t*@ = 1\n}"},
+	{"assign:lhs:field", "*S1", "func #() {\n\t@.a = 1\n}"},
+	{"assign:lhs:index-key", "string", "func #() {\n\tgm[@] = 1\n}"},
+	{"assign:lhs:index-key:interface-keyed-map", "int", "func #() {\n\tgmi[@] = 1\n}"},
+	{"assign:tuple-call", "func() (int, error)", "func #() {\n\tgi, gerr = @()\n}"},
+	{"index:operand:map", "map[string]int", "func #() {\n\t_ = @[\"k\"]\n}"},
+	{"index:operand:map:int-key", "map[int]string", "func #() {\n\t_ = @[1]\n}"},
+	{"index:operand:map:key-type-is-own-type", "map[interface{}]int", "func #() {\n\t_ = @[1]\n}"},
+	{"index:operand:named-map", "NM", "func #() {\n\t_ = @[\"k\"]\n}"},
+	{"index:operand:map:comma-ok", "map[string]int", "func #() {\n\t_, ok := @[\"k\"]\n\t_ = ok\n}"},
+	{"index:operand:slice", "[]int", "func #() {\n\t_ = @[0]\n}"},
+	{"index:operand:array", "[3]int64", "func #() {\n\t_ = @[1]\n}"},
+	{"index:operand:pointer-to-array", "*[3]int64", "func #() {\n\t_ = @[1]\n}"},
+	{"index:operand:string", "string", "func #() {\n\t_ = @[0]\n}"},
+	{"index:operand:map:as-argument", "map[string]int", "func #() {\n\tfn(@[\"k\"])\n}"},
+	{"index:operand:map-of-maps", "map[string]map[string]int", "func #() {\n\t_ = @[\"a\"][\"b\"]\n}"},
+	{"index:key:map", "string", "func #() {\n\t_ = gm[@]\n}"},
+	{"index:key:named-map", "string", "func #() {\n\t_ = gnm[@]\n}"},
+	{"index:key:interface-keyed-map", "int", "func #() {\n\t_ = gmi[@]\n}"},
+	{"index:key:named-interface-keyed-map", "string", "func #() {\n\t_ = gmk[@]\n}"},
+	{"index:key:slice", "int", "func #() {\n\t_ = gsl[@]\n}"},
+	{"index:key:array", "int", "func #() {\n\t_ = garr[@]\n}"},
+	{"index:key:string", "int", "func #() {\n\t_ = gs[@]\n}"},
+	{"index:both:map-operand-of-inner", "map[string]string", "func #() {\n\t_ = gm[@[\"k\"]]\n}"},
+	{"slice-expr:operand", "[]int", "func #() {\n\t_ = @[1:]\n}"},
+	{"slice-expr:bound", "int", "func #() {\n\t_ = gsl[@:]\n}"},
+	{"call:argument", "int", "func #() {\n\tfn(@)\n}"},
+	{"call:argument:interface-parameter", "int", "func #() {\n\tsinkI(@)\n}"},
+	{"call:argument:second", "int8", "func #() {\n\tsinkW(nil, @)\n}"},
+	{"call:argument:first-interface", "W", "func #() {\n\tsinkW(@, 1)\n}"},
+	{"call:argument:func-typed", "func(int) int", "func #() {\n\tsinkF(@, nil)\n}"},
+	{"call:argument:named-map-typed", "map[string]int", "func #() {\n\tsinkF(nil, @)\n}"},
+	{"call:argument:variadic-part", "string", "func #() {\n\tsinkV(1, \"a\", @)\n}"},
+	{"call:argument:variadic-part:first", "string", "func #() {\n\tsinkV(1, @)\n}"},
+	{"call:argument:before-variadic-part", "int", "func #() {\n\tsinkV(@)\n}"},
+	{"call:argument:spread", "[]string", "func #() {\n\tsinkV(1, @...)\n}"},
+	{"call:argument:variadic-interface", "int", "func #() {\n\tfmt.Println(1, @)\n}"},
+	{"call:argument:only-variadic", "int", "func #() {\n\tfv(@)\n}"},
+	{"call:argument:method", "[]byte", "func #() {\n\tgw.Write(@)\n}"},
+	{"call:argument:func-value", "int", "func #() {\n\tgfn(@)\n}"},
+	{"call:argument:explicit-instance", "int", "func #() {\n\t_ = gen[int](@)\n}"},
+	{"call:argument:go-statement", "int", "func #() {\n\tgo fn(@)\n}"},
+	{"call:argument:defer-statement", "int", "func #() {\n\tdefer fn(@)\n}"},
+	{"call:function", "func(int) int", "func #() {\n\t@(1)\n}"},
+	{"call:function:go-statement", "func()", "func #() {\n\tgo @()\n}"},
+	{"call:conversion", "int", "func #() {\n\t_ = int64(@)\n}"},
+	{"call:conversion:to-interface", "W", "func #() {\n\t_ = io.Writer(@)\n}"},
+	{"call:conversion:parenthesised-type", "W", "func #() {\n\t_ = (io.Writer)(@)\n}"},
+	{"call:conversion:to-slice", "string", "func #() {\n\t_ = []byte(@)\n}"},
+	{"call:conversion:to-named", "int8", "func #() {\n\t_ = N8(@)\n}"},
+	{"call:builtin:append-element", "int", "func #() {\n\tgsl = append(gsl, @)\n}"},
+	{"call:builtin:append-spread", "[]int", "func #() {\n\tgsl = append(gsl, @...)\n}"},
+	{"call:builtin:append-first", "[]int", "func #() {\n\tgsl = append(@, 1)\n}"},
+	{"call:builtin:append-string-spread", "string", "func #() {\n\tgbs = append(gbs, @...)\n}"},
+	{"call:builtin:copy-from-string", "string", "func #() {\n\tcopy(gbs, @)\n}"},
+	{"call:builtin:len", "[]int", "func #() {\n\t_ = len(@)\n}"},
+	{"call:builtin:make-size", "int", "func #() {\n\t_ = make([]int, @)\n}"},
+	{"call:builtin:delete-key", "string", "func #() {\n\tdelete(gm, @)\n}"},
+	{"call:builtin:panic", "int", "func #() {\n\tpanic(@)\n}"},
+	{"composite:slice:element", "int64", "func #() {\n\t_ = []int64{1, @}\n}"},
+	{"composite:slice:keyed-element", "int64", "func #() {\n\t_ = []int64{3: @}\n}"},
+	{"composite:slice:interface-elements", "int", "func #() {\n\t_ = []interface{}{@}\n}"},
+	{"composite:named-slice:element", "int", "func #() {\n\t_ = NSl{@}\n}"},
+	{"composite:array:element", "string", "func #() {\n\t_ = [4]string{@}\n}"},
+	{"composite:array:counted", "string", "func #() {\n\t_ = [...]string{\"a\", @}\n}"},
+	{"composite:map:value", "float64", "func #() {\n\t_ = map[string]float64{\"k\": @}\n}"},
+	{"composite:map:key", "string", "func #() {\n\t_ = map[string]float64{@: 1}\n}"},
+	{"composite:map:interface-key", "int", "func #() {\n\t_ = map[interface{}]int{@: 1}\n}"},
+	{"composite:map:key-and-value-types-equal", "string", "func #() {\n\t_ = map[string]string{@: \"v\"}\n}"},
+	{"composite:struct:keyed", "int64", "func #() {\n\t_ = S1{b: @}\n}"},
+	{"composite:struct:keyed:first", "int8", "func #() {\n\t_ = S1{a: @, b: 1}\n}"},
+	{"composite:struct:positional:second", "int64", "func #() {\n\t_ = S1{1, @}\n}"},
+	{"composite:struct:positional:first", "int8", "func #() {\n\t_ = S1{@, 2}\n}"},
+	{"composite:struct:pointer-field", "*int", "func #() {\n\t_ = SP{p: @}\n}"},
+	{"composite:struct:address-of", "int8", "func #() {\n\t_ = &S1{a: @}\n}"},
+	{"composite:struct:anonymous", "int", "func #() {\n\t_ = struct{ k interface{} }{k: @}\n}"},
+	{"composite:nested:elided-slice", "int64", "func #() {\n\t_ = [][]int64{{@}}\n}"},
+	{"composite:nested:elided-struct", "int8", "func #() {\n\t_ = map[string]S1{\"k\": {a: @}}\n}"},
+	{"composite:nested:elided-struct-positional", "int64", "func #() {\n\t_ = []S1{{1, @}}\n}"},
+	{"composite:nested:elided-pointer", "int8", "func #() {\n\t_ = []*S1{{a: @}}\n}"},
+	{"composite:nested:elided-map-key", "int8", "func #() {\n\t_ = map[S1]int{{a: @}: 1}\n}"},
+	{"send:value", "int", "func #() {\n\tgch <- @\n}"},
+	{"send:channel", "chan int", "func #() {\n\t@ <- 1\n}"},
+	{"receive:operand", "chan int", "func #() {\n\t<-@\n}"},
+	{"unary:operand", "int", "func #() {\n\t_ = -@\n}"},
+	{"star:operand", "*int", "func #() {\n\t_ = *@\n}"},
+	{"binary:left", "int", "func #() {\n\t_ = @ + 1\n}"},
+	{"binary:right", "int", "func #() {\n\t_ = gi + @\n}"},
+	{"binary:comparison", "int", "func #() {\n\t_ = @ == gi\n}"},
+	{"selector:operand:field", "*S1", "func #() {\n\t_ = @.a\n}"},
+	{"selector:operand:method-call", "W", "func #() {\n\t@.Write(nil)\n}"},
+	{"selector:operand:method-value", "W", "func #() {\n\t_ = @.String\n}"},
+	{"type-assertion:operand", "interface{}", "func #() {\n\t_ = @.(int)\n}"},
+	{"condition:if", "bool", "func #() {\n\tif @ {\n\t}\n}"},
+	{"condition:for", "bool", "func #() {\n\tfor @ {\n\t}\n}"},
+	{"switch:tag", "int", "func #() {\n\tswitch @ {\n\t}\n}"},
+	{"switch:case", "int", "func #() {\n\tswitch gi {\n\tcase @:\n\t}\n}"},
+	{"range:operand", "[]int", "func #() {\n\tfor range @ {\n\t}\n}"},
+	{"incdec:index-operand", "[]int", "func #() {\n\t@[0]++\n}"},
+}
+
+// the position group of a sink site class: "index:operand:map:int-key:parenthesised" -> "index:operand:parenthesised"
+func c02SinkGroup(class string) string {
+	paren := strings.HasSuffix(class, ":parenthesised")
+	parts := strings.Split(strings.TrimSuffix(class, ":parenthesised"), ":")
+	g := parts[0]
+	switch {
+	case parts[0] == "assign" && len(parts) > 1 && parts[1] == "lhs":
+		g = "assign:lhs"
+	case parts[0] == "assign":
+		g = "assign:rhs"
+	case len(parts) > 1 && (parts[0] == "index" || parts[0] == "call" || parts[0] == "composite" || parts[0] == "selector" || parts[0] == "slice-expr" || parts[0] == "send"):
+		g = parts[0] + ":" + parts[1]
+	}
+	if paren {
+		g += ":parenthesised"
+	}
+	return g
+}
+
+// c02BuildSink: one declaration per (template, parenthesisation); the match is `pv.(T)`, an expression of any type
+func c02BuildSink(seed int64, thorough bool) (string, map[string]string) {
+	rng := hx.Rng(seed, "c02-sink")
+	var sb strings.Builder
+	sb.WriteString(c02Prelude)
+	sb.WriteString(c02SinkDecls)
+	classes := map[string]string{}
+	k := 0
+	for _, tp := range c02SinkTemplates {
+		probe := "pv.(" + tp.typ + ")"
+		variants := []string{probe, "(" + probe + ")"}
+		if thorough || rng.Intn(4) == 0 {
+			variants = append(variants, "(("+probe+"))")
+		}
+		for vi, v := range variants {
+			name := fmt.Sprintf("s%d", k)
+			k++
+			sb.WriteString(strings.Replace(strings.Replace(tp.decl, "#", name, 1), "@", v, 1))
+			sb.WriteString("\n\n")
+			classes[name] = tp.class
+			if vi > 0 {
+				classes[name] += ":parenthesised"
+			}
+		}
+	}
+	sb.WriteString("\n// end\n")
+	return sb.String(), classes
 }
